@@ -310,8 +310,62 @@ def repro_case(chk):
     return Verdict(HELD, "repro-has-float-opaque", obs=obs)
 
 
+ALIAS_FACTS = """
+struct VBase { virtual void f(); int b; };
+typedef VBase VBaseT; typedef VBaseT VBaseTT;
+struct VD1 : VBaseT { virtual void g(); int d; };
+struct VD2 : VBaseTT { virtual void h(); };
+struct VD3 : VD1 { virtual void k(); };
+template <typename T> struct VWrap { T inner; };
+using VAlias = VWrap<VD1>;
+struct VHolds { VAlias a; VD2 m[2]; };
+struct DBase { ~DBase(); int x; };
+typedef DBase DBaseT;
+struct DD1 : DBaseT { int y; };
+struct DHolds { DD1 d; DBaseT t[2]; };
+struct FBase { float x; };
+typedef FBase FBaseT; typedef FBaseT FArr[3];
+struct FD1 : FBaseT { int k; };
+struct FHolds { FArr a; FD1 d; };
+template <typename T> struct TArr { T arr[40]; };
+typedef TArr<int> TArrI; typedef TArrI TArrII;
+struct THolds { TArrII t; TArrI u[2]; };
+"""
+
+
+def alias_facts_cases(chk):
+    """Facts (vtable, destructor, float, type-parameter array, derivability) that reach their users only THROUGH typedefs / alias templates, in
+    every order of the alias declarations that C++ allows: deterministic, run on every invocation."""
+    d = chk.dir("aliasfacts")
+    out = []
+    variants = [("as-written", ALIAS_FACTS)]
+    # the classes first, all aliases after their targets but before their users is the only legal order; what can move are the forward
+    # declarations: hoist them all
+    fwd = "".join("struct %s;\n" % n for n in re.findall(r"^struct (\w+)", ALIAS_FACTS, re.M))
+    variants.append(("forward-declared", fwd + ALIAS_FACTS))
+    for vn, text in variants:
+        p = write(os.path.join(d, "af_%s.hpp" % vn), text)
+        for k, flags in enumerate(([], ["--with-derive-default", "--with-derive-hash", "--with-derive-partialeq", "--with-derive-eq", "--with-derive-ord", "--with-derive-partialord"],
+                                   ["--default-alias-style", "new_type"], ["--no-layout-tests", "--impl-debug", "--with-derive-default"])):
+            name = "alias-facts-%s-%d" % (vn, k)
+            rc, o, se, log = hooked(d, "af%s%d" % (vn[:2], k), [p] + flags + ["--", "-x", "c++", "-std=c++14"])
+            if rc != 0 or "BEGIN" not in log:
+                out.append(Verdict(INCONCLUSIVE, name, "bindgen/hook failed: " + se[-200:]))
+                continue
+            obs, consulted, capped = parse_log(log)
+            if consulted or capped:
+                out.append(Verdict(VIOLATED, name, "a fact that is not the fixed point was acted on:\n" + "\n".join(consulted[:8]),
+                                   files={"header.hpp": text, "flags.txt": " ".join(flags), "hook.log": log[-6000:]}, obs=obs,
+                                   signature=unstable_signature(consulted, flags, text)))
+            else:
+                out.append(Verdict(HELD, name, obs=dict(obs, alias_fact_headers=1), nontrivial=obs["consultations"] > 0, key=name))
+    return out
+
+
 def run(chk):
     chk.add(repro_case(chk))
+    for v in alias_facts_cases(chk):
+        chk.add(v)
     n = len(corpus.entries())
     chk.map(lambda i: corpus_case(chk, i), range(n), budget_s=chk.pick(300, 900))
     chk.map(lambda i: graph_case(chk, i), range(chk.pick(70, 700)), budget_s=chk.pick(400, 3000))
